@@ -171,6 +171,19 @@ LinksOK(stats) == \A i \in DOMAIN stats :
                     (stats[i].t = "file" /\ stats[i].hl # <<>>) =>
                       \E j \in 1..(i - 1) : stats[j].p = stats[i].hl /\ stats[j].t = "file" /\ stats[j].hl = <<>>
 
+\* ---- receiver-side Filter -----------------------------------------------------
+\* The harness's filters are pure functions of the stat; the destination must equal the
+\* FILTERED view, identity is compared on the filtered stat, while notifications carry the
+\* stat as sent (sh stays the hash of the unfiltered stat).
+\* perm bits: clearing 0222 = the three write bits
+ClearWrite(perm) == LET b(k) == (perm \div k) % 2 IN perm - 128 * b(128) - 16 * b(16) - 2 * b(2)
+FilterEntry(e, f) ==
+  IF f = "zeroOwner" THEN [e EXCEPT !.uid = 0, !.gid = 0]
+  ELSE IF f = "stripWrite" THEN (IF e.t = "file" THEN [e EXCEPT !.perm = ClearWrite(e.perm)] ELSE e)
+  ELSE e
+FilterView(view, f) == IF f = "" THEN view ELSE TLCEval([i \in DOMAIN view |-> FilterEntry(view[i], f)])
+FilterOf(begin) == IF "filter" \in DOMAIN begin THEN begin.filter ELSE ""
+
 \* ---- C03: hostile sender ---------------------------------------------------
 \* index of the first STAT that a receiver must reject: not a clean relative path strictly
 \* inside the root, not strictly ascending, parent not a directory sent earlier, or a hard
@@ -188,10 +201,11 @@ HostileClauses(c, begin, e, stats) ==
                                     /\ ~\E j \in 1..(firstBad - 1) : stats[j].p = stats[i].p}
   IN Cl(begin.outsideBefore # e.outsideAfter, "C03.outsideTouched")
      \cup Cl((firstBad # 0 \/ c.rMustFail) /\ c.retR = "ok", "C03.invalidStreamAccepted")
+     \* "applied" = the entry exists afterwards as a new or replaced inode.  A stale destination
+     \* entry of that name that disappears is the (legitimate) effect of the valid prefix.
      \cup Cl(firstBad # 0 /\ \E i \in late :
                 LET p == stats[i].p IN
-                  \/ Has(after, p) # Has(before, p)
-                  \/ (Has(after, p) /\ Has(before, p) /\ (At(after, p).ino # At(before, p).ino \/ At(after, p).c # At(before, p).c)),
+                  Has(after, p) /\ (~Has(before, p) \/ At(after, p).ino # At(before, p).ino),
             "C03.offendingEntryApplied")
 
 EndClauses(c, e) ==
@@ -200,7 +214,7 @@ EndClauses(c, e) ==
       before == begin.before
       stats == StatsOf(evs)
       notes == NotesOf(evs)
-      view == ViewOf(stats, e.vc)
+      view == FilterView(ViewOf(stats, e.vc), FilterOf(begin))
       after == e.after
       merge == c.mode = "merge"
       bothOK == c.retS = "ok" /\ c.retR = "ok"
@@ -212,7 +226,8 @@ EndClauses(c, e) ==
         ELSE IF c.metaOnly THEN {}
         ELSE Pfx("C01", IF merge THEN OverlayClauses(view, after, before) ELSE ConvergedClauses(view, after, before))
              \cup Pfx("C02", Cl(~ReqOK(reqs, view, before, c.differ, merge), "contentRequestSet")
-                             \cup (IF merge \/ c.differ = "none" THEN {} ELSE KeptClauses(view, after, before)))
+                             \cup (IF merge \/ c.differ = "none" THEN {} ELSE KeptClauses(view, after, before))
+                             \cup (IF merge THEN {} ELSE RewrittenClauses(view, after, before)))
              \cup Pfx("C02", Cl(~merge /\ c.differ = "metadata" /\ Changed(view, before) = {} /\ Deleted(view, before) = {}
                                 /\ (notes # <<>> \/ c.rReq # {}), "resyncOfUnchangedSourceNotSilent"))
              \cup Pfx("C07", Cl(~ReqOK(reqs, view, before, c.differ, merge), "contentRequestSet"))
@@ -231,7 +246,7 @@ EndClauses(c, e) ==
   \cup Cl(c.realS /\ c.srcExact /\ c.ended
          /\ ~(Len(stats) = Len(begin.src) /\ \A i \in DOMAIN begin.src : stats[i].p = begin.src[i].p /\ stats[i].t = begin.src[i].t),
          "C06.statPerViewEntry")
-  \cup (IF c.realS /\ c.realR /\ c.faults = 0 /\ ~bothOK THEN {"C11.faultFreeTransferFailed"} ELSE {})
+  \cup (IF c.realS /\ c.realR /\ c.faults = 0 /\ ~bothOK THEN {"C11.faultFreeTransferFailed", "C08.outcomeDependsOnSchedule"} ELSE {})
   \cup (IF "hostile" \in DOMAIN begin /\ c.realR THEN HostileClauses(c, begin, e, stats) ELSE {})
   \cup Cl(c.retS = "none" \/ c.retR = "none", "C04.callDidNotReturn")
 
@@ -239,7 +254,7 @@ EndDetail(c, e) ==
   LET evs == CaseEvents(c, l)
       before == evs[1].before
       stats == StatsOf(evs)
-      view == ViewOf(stats, e.vc) IN
+      view == FilterView(ViewOf(stats, e.vc), FilterOf(evs[1])) IN
   ToString([notify |-> NotifyDetail(NotesOf(evs), view, before, c.differ, c.mode = "merge"),
             reqs |-> ReqPaths(c, stats), needed |-> Needed(view, before),
             changed |-> Changed(view, before), exception |-> Exception(view, before)])
